@@ -159,6 +159,10 @@ pub fn table_prog(c: &(Vec<TableStep>, bool), obs: &mut Obs) -> CaseResult {
     ensure!((&*t as *const PageTable as usize) % 4096 == 0, "table not 4 KiB aligned");
     ensure!(bytes_of(&t).iter().all(|b| *b == 0), "PageTable::new() is not 4096 zero bytes");
     ensure!(t.is_empty(), "new table must be empty");
+    {
+        let d: Box<PageTable> = Box::new(Default::default());
+        ensure!(bytes_of(&d).iter().all(|b| *b == 0) && d.is_empty(), "PageTable::default() is not an empty table of 4096 zero bytes");
+    }
     let mut model = [0u64; 512];
     let mut paths = std::collections::BTreeSet::new();
     for (i, st) in prog.iter().enumerate() {
